@@ -61,7 +61,7 @@ def get_new_fields(resource, fields):
         if isinstance(target, str):
             target = dict(
                 name=target,
-                type=get_type(resource['schema']['fields'],
+                type=get_type(resource['schema']['fields'] + new_fields,
                               f.get('source', []),
                               f['operation'])
             )
